@@ -274,6 +274,21 @@ theorem callProgressive_is_call_plus_sender :
       "send c.sess.Send() wamp.Cancel", "return", "send c.sess.Send() message"] ∧
     ({} : P.Cfg).bare = true := by decide
 
+/-- `Call` and `CallProgressive` wait for the progress-handler goroutine unconditionally (regenerated
+    skeletons): `close progChan` is followed at once by a plain receive from `progDone`, after
+    `waitForReplyWithCancel` and before the result is prepared. A receive that is merely one
+    alternative of a `select` is labelled `select-recv` by the extractor, and there is none for
+    `progDone`. This is the step `closing → returned` of the model `R`, which is taken only on
+    `progDone` ("never after Call has returned"). -/
+theorem progress_handler_joined :
+    (Client.callSkeleton.dropWhile (· != "c.waitForReplyWithCancel")).take 4 =
+      ["c.waitForReplyWithCancel", "close progChan", "recv progDone", "c.prepareCallResultMessage"] ∧
+    (Client.callProgressiveSkeleton.dropWhile (· != "c.waitForReplyWithCancel")).take 4 =
+      ["c.waitForReplyWithCancel", "close progChan", "recv progDone", "c.prepareCallResultMessage"] ∧
+    Client.callSkeleton.count "recv progDone" = 1 ∧ Client.callProgressiveSkeleton.count "recv progDone" = 1 ∧
+    "select-recv progDone" ∉ Client.callSkeleton ∧ "select-recv progDone" ∉ Client.callProgressiveSkeleton := by
+  decide
+
 /-- The waiter's side of every run of waiter + sender is a run of `R` (so the `R` theorems apply to
     it under every interleaving with the sender). -/
 theorem callProgressive_waiter (cfg : RP.Cfg) (st : RP.State) (hr : RP.Reachable cfg st) :
